@@ -64,5 +64,26 @@ Proof.
       destruct l as [|kv l]; [reflexivity|].
       cbn [forallb] in E. apply andb_true_iff in E as [Ek _]. cbn [bind]. rewrite (dict_items_fail _ kv l Ek). reflexivity.
   - destruct v; try (cbn [gen_encode_object encode_f]; crush_enc; fail).
+    + destruct sub; cbn [gen_encode_object encode_f safe_repr py_repr py_str]; short_enc; unfold p_str, py_str; crush_enc.
+    + (* list *)
+      cbn [gen_encode_object encode_f]. unfold fl_try_e, fl_seq, fl_bind, p_iter.
+      cbn [p_type_in p_is_none p_isinstance existsb type_is1 isinstance1 orb py_iter bind].
+      rewrite (map_result_ext (fun v_item => gen_encode_object orc n v_item) (fun x => Ok (encode_f orc n x)) l IH), map_result_ok_map.
+      destruct l; reflexivity.
+    + cbn [gen_encode_object encode_f]. unfold fl_try_e, fl_seq, fl_bind, p_iter.
+      cbn [p_type_in p_is_none p_isinstance existsb type_is1 isinstance1 orb py_iter bind].
+      rewrite (map_result_ext (fun v_item => gen_encode_object orc n v_item) (fun x => Ok (encode_f orc n x)) l IH), map_result_ok_map.
+      destruct l; reflexivity.
+    + (* dict *)
+      cbn [gen_encode_object encode_f]. unfold fl_try_e, fl_seq, fl_bind, r_not, r_and, p_iter, p_items.
+      cbn [p_type_in p_is_none p_isinstance existsb type_is1 isinstance1 orb py_iter bind]. rewrite all_str_keys. cbn [bind].
+      destruct (forallb (fun kv => is_str (fst kv)) l) eqn:E; cbn [negb]; [|reflexivity].
+      cbn [bind]. rewrite (dict_items_enc (fun x => gen_encode_object orc n x) (encode_f orc n) l IH E). destruct l; reflexivity.
+Qed.
+Theorem bridge_decode : forall n v, gen_decode_object orc n v = Ok (decode_f orc n v).
+Proof.
+  induction n as [|n IH]; intros v.
+  - destruct v; try (cbn [gen_decode_object decode_f]; crush_enc; fail).
 Abort.
+
 End Bridge.
